@@ -66,7 +66,7 @@ fn arg() -> impl Strategy<Value = Arg> {
         2 => Just(Vec::new()),
         6 => prop::collection::vec(arg_byte(), 1..=8),
         3 => prop::collection::vec(arg_byte(), 9..=300),
-        1 => Just(300usize).prop_flat_map(|n| prop::collection::vec(arg_byte(), n)),
+        1 => prop::collection::vec(arg_byte(), 300..=300),
         2 => utf8_arg(),
     ]
     .prop_map(|b| Arg::B(BStr(b)))
@@ -178,8 +178,9 @@ fn builds(thorough: bool, quick_n: usize) -> BoxedStrategy<Vec<u8>> {
 
 /// Full start-up case.
 pub fn startup_case(thorough: bool) -> impl Strategy<Value = Case> {
-    let nargs = prop_oneof![2 => Just(0usize), 6 => 1usize..=6, 3 => 7usize..=40, 1 => Just(40usize)];
-    let argv = (arg(), nargs.prop_flat_map(|n| prop::collection::vec(arg(), n)), prop_oneof![12 => Just(None), 1 => (long_arg(), any::<u16>()).prop_map(Some)]).prop_map(
+    // (no prop_flat_map: unions of vec strategies shrink towards their first, smallest alternative)
+    let rest = prop_oneof![2 => prop::collection::vec(arg(), 0..=0), 6 => prop::collection::vec(arg(), 1..=6), 3 => prop::collection::vec(arg(), 7..=40), 1 => prop::collection::vec(arg(), 40..=40)];
+    let argv = (arg(), rest, prop_oneof![12 => Just(None), 1 => (long_arg(), any::<u16>()).prop_map(Some)]).prop_map(
         |(a0, mut rest, long)| {
             if let Some((l, pos)) = long {
                 let at = pick_idx(pos, rest.len() + 1);
@@ -193,8 +194,7 @@ pub fn startup_case(thorough: bool) -> impl Strategy<Value = Case> {
             v
         },
     );
-    let nenv = prop_oneof![1 => Just(0usize), 6 => 1usize..=8, 3 => 9usize..=40];
-    let envp = nenv.prop_flat_map(|n| prop::collection::vec(entry(), n));
+    let envp = prop_oneof![1 => prop::collection::vec(entry(), 0..=0), 6 => prop::collection::vec(entry(), 1..=8), 3 => prop::collection::vec(entry(), 9..=40)];
     let ids = prop_oneof![1 => Just(None), 2 => (1000u32..70_000, 1000u32..70_000).prop_map(Some), 1 => (any::<u32>(), any::<u32>()).prop_map(|(u, g)| Some((u.clamp(1, u32::MAX - 2), g.clamp(1, u32::MAX - 2))))];
     (argv, envp, prop::collection::vec(key_spec(), 1..=8), builds(thorough, 3), ids).prop_map(|(argv, envp, specs, builds, ids)| {
         let keys = specs.iter().map(|s| BStr(resolve_key(s, &envp))).collect();
